@@ -136,5 +136,5 @@ def jobs(tier):
             pairs = pairs + [('B', 'A')]
         for s, d in pairs:
             js.append(dict(name=f'H11:route:{sh}:{s}->{d}', fn='h_route', params=dict(shape=sh, src=s, dst=d, symmetric=(tier == 'quick')),
-                           witness_every=5, budget_s=150 if tier == 'quick' else 1500, opts=dict(no_ties=True), cost=len(SHAPES[sh][1]) ** 3))
+                           witness_every=5, budget_s=150 if tier == 'quick' else 600, opts=dict(no_ties=True), cost=len(SHAPES[sh][1]) ** 3))
     return js
